@@ -157,6 +157,47 @@ theorem C15_new (c : MessageConfig) (sh : Option StorageHeader) (h : c.wf = true
     · simp only [StandardHeader.overallLengthNat, hpl]
       simpa only [Option.isSome_map] using htot
 
+/-- the two length claims for ANY configuration that fits the 16-bit length field — also one
+    whose verbose arguments are not well-typed (a value of another kind than the type info
+    says, missing name / unit / fixed-point parts), for which nothing else of C15 can hold:
+    the recorded payload length is the length of the serialised payload, and the reported byte
+    length is the length of the serialisation without storage header.  (Ids of more than 4
+    bytes are written in full by the crate and are excluded.) -/
+theorem C15_new_lengths (c : MessageConfig) (sh : Option StorageHeader)
+    (hecu : ∀ id, c.ecuId = some id → id.length ≤ 4)
+    (hx : ∀ x, c.extendedHeaderInfo = some x → x.appId.length ≤ 4 ∧ x.contextId.length ≤ 4)
+    (hfit : HEADER_MIN_LENGTH
+      + (if c.ecuId.isSome then 4 else 0) + (if c.sessionId.isSome then 4 else 0)
+      + (if c.timestamp.isSome then 4 else 0)
+      + (if c.extendedHeaderInfo.isSome then EXTENDED_HEADER_LENGTH else 0)
+      + (c.payload.asBytes c.endianness).length ≤ 65535) :
+    (Message.new c sh).header.payloadLength.toNat
+      = ((Message.new c sh).payload.asBytes (Message.new c sh).header.endianness).length
+    ∧ (Message.new c sh).byteLen
+      = ({ Message.new c sh with storageHeader := none } : Message).asBytes.length := by
+  have hpl : (BitVec.ofNat 16 (c.payload.asBytes c.endianness).length).toNat
+      = (c.payload.asBytes c.endianness).length := by
+    simp only [BitVec.toNat_ofNat, HEADER_MIN_LENGTH] at hfit ⊢; omega
+  refine ⟨hpl, ?_⟩
+  rw [Message.asBytes_eq]
+  simp only [shBytes, List.nil_append, List.length_append]
+  rw [StandardHeader.length_asBytes_of_le _ (by simpa [Message.new] using hecu)]
+  simp only [Message.byteLen, StandardHeader.overallLength, StandardHeader.overallLengthNat,
+    Message.new, hpl, asU16, HEADER_MIN_LENGTH, EXTENDED_HEADER_LENGTH] at hfit ⊢
+  by_cases hxi : c.extendedHeaderInfo = none
+  · simp only [hxi, Option.isSome_none, Bool.false_eq_true, if_false, Option.map_none, ehBytes,
+      List.length_nil] at hfit ⊢
+    by_cases h1 : c.ecuId.isSome = true <;> by_cases h2 : c.sessionId.isSome = true <;>
+      by_cases h3 : c.timestamp.isSome = true <;>
+      simp only [h1, h2, h3, if_false, if_true] at hfit ⊢ <;> omega
+  · obtain ⟨x, hxi⟩ := Option.ne_none_iff_exists'.mp hxi
+    obtain ⟨xa, xc⟩ := hx x hxi
+    simp only [hxi, Option.isSome_some, if_true, Option.map_some, ehBytes] at hfit ⊢
+    rw [ExtendedHeader.length_asBytes_of_le _ xa xc]
+    by_cases h1 : c.ecuId.isSome = true <;> by_cases h2 : c.sessionId.isSome = true <;>
+      by_cases h3 : c.timestamp.isSome = true <;>
+      simp only [h1, h2, h3, if_false, if_true] at hfit ⊢ <;> omega
+
 /-- a message built by `Message::new` parses back to an equal message, consuming exactly its
     serialisation (C01 on the well-formed result) -/
 theorem C15_new_parses_back (c : MessageConfig) (sh : Option StorageHeader) (h : c.wf = true)
